@@ -12,6 +12,10 @@ LEAVES = [
      [P("self.data == data", "same_data", "bool"), P("now", "now"), P("self.last_time", "last_time"),
       P("self.last_message is None", "last_none", "bool"), P("self.last_message.is_query()", "last_query", "bool"),
       P("self.last_message.has_qu_question()", "last_qu", "bool")], "bool", {}),
+    # the scan of the packets already deferred for the address ("if we get the same packet we ignore it"): equality of the
+    # bytes, not identity -- two copies of a datagram are two objects (`is` fails the translation: unregistered name)
+    ("Listener", "deferred_same_packet", "_listener.py", "AsyncListener.handle_query_or_defer", ("if", "incoming.data", 0),
+     [P("incoming.data == msg.data", "same_data", "bool")], "bool", {}),
     # ---- _protocol/incoming.py: header predicates the listener branches on
     ("Listener", "is_query", "_protocol/incoming.py", "DNSIncoming.is_query", ("ret",),
      [P("self.flags", "flags")], "bool", {"nat": True}),
